@@ -93,6 +93,63 @@ def spec_parity_fsync(evs):
     return viol, obs
 
 
+def make_motif(a, fs, rng):
+    """Scripted step sequences that walk the block state machine along paths random histories rarely take:
+    a shortcut/partial state is saved (REP, CHG with a past hash, DELETED), then the same data comes back."""
+    files = [(d, s) for (d, s) in fs.files() if len(fs.entries[d][s][1]) > 0 and not fs.links_of(d, s)]
+    if not files:
+        return []
+    d, s = rng.choice(files)
+    data = fs.entries[d][s][1]
+    steps = []
+    first = rng.choice(["copy-same-name", "replace-same-size", "delete", "move-disk"])
+    tgt = (d, s)
+    if first == "copy-same-name" and len(a.disks) > 1:
+        d2 = rng.choice([x for x in a.disks if x != d])
+        if not scen._clear_path(fs, d2, s):
+            return []
+        steps.append(("fs", lambda: fs.copy(d, s, d2, s), "copy %r to %s" % (s, a.disk_names[d2])))
+        tgt = (d2, s)
+    elif first == "replace-same-size":
+        def f1():
+            fs.remove(d, s)
+            fs.write(d, s, A.gen_bytes(rng, len(data), "rand"))
+        steps.append(("fs", f1, "replace %r by same-size data" % s))
+    elif first == "delete":
+        steps.append(("fs", lambda: fs.remove(d, s), "delete %r" % s))
+    elif first == "move-disk" and len(a.disks) > 1:
+        d2 = rng.choice([x for x in a.disks if x != d])
+        if not scen._clear_path(fs, d2, s):
+            return []
+        steps.append(("fs", lambda: fs.rename(d, s, d2, s), "move %r to %s" % (s, a.disk_names[d2])))
+        tgt = (d2, s)
+    else:
+        return []
+    sv = rng.choice([["-S", str(rng.randint(0, 3)), "-B", str(rng.randint(1, 4))], ["--test-kill-after-sync"],
+                     ["-h", "-S", str(rng.randint(0, 3)), "-B", str(rng.randint(1, 4))], ["-S", "0", "-B", "1"]])
+    steps.append(("cmd", "sync", ["-E", "-Z"] + sv))
+    second = rng.choice(["touch", "same-data-rewrite", "recreate-same-data", "none"])
+    td, ts = tgt
+    if second == "touch":
+        steps.append(("fs", lambda: fs.set_mtime(td, ts) if ts in fs.entries[td] else None, "touch %r" % ts))
+    elif second == "same-data-rewrite":
+        def f2():
+            if ts in fs.entries[td] and fs.entries[td][ts][0] == "file":
+                fs.write(td, ts, fs.entries[td][ts][1], keep_inode=rng.random() < 0.5)
+        steps.append(("fs", f2, "rewrite %r with the same data" % ts))
+    elif second == "recreate-same-data":
+        def f3():
+            if ts in fs.entries[td]:
+                fs.remove(td, ts)
+            if scen._clear_path(fs, td, ts):
+                fs.write(td, ts, data)
+        steps.append(("fs", f3, "recreate %r with the old data" % ts))
+    if rng.random() < 0.5:
+        steps.append(("cmd", "sync", ["-E", "-Z"] + rng.choice([[], ["-S", "0", "-B", "2"], ["-h"]])))
+    steps.append(("cmd", "sync", ["-E", "-Z"]))
+    return steps
+
+
 def run_history(case):
     seed, idx, nsteps, tier = case
     rng = random.Random("c06-%d-%d" % (seed, idx))
@@ -105,9 +162,25 @@ def run_history(case):
     iocache = rng.choice([None, None, 1, 3, 128])
     try:
         A.populate(fs, rng, nfiles=rng.randint(4, 18), hostile=0.1)
-        for step in range(nsteps):
+        pending = []   # scripted steps of a motif: ("fs", callable) or ("cmd", name, args)
+        step = -1
+        nsteps_left = nsteps
+        while nsteps_left > 0 or pending:
+            step += 1
+            nsteps_left -= 1
             probs = []
             k = rng.random()
+            if not pending and rng.random() < 0.12:
+                pending = make_motif(a, fs, rng)
+                res["counters"]["motifs"] = res["counters"].get("motifs", 0) + (1 if pending else 0)
+            scripted = pending.pop(0) if pending else None
+            if scripted is not None and scripted[0] == "fs":
+                try:
+                    scripted[1]()
+                    hist.append(("motif-fs", scripted[2]))
+                except (OSError, KeyError):
+                    pending = []
+                continue
             if k < 0.33:
                 ops = scen.mutate(fs, rng, rng.randint(1, 5), hostile=0.1)
                 hist.append(("fs", len(ops)))
@@ -142,7 +215,11 @@ def run_history(case):
                 args += ["--test-io-cache", str(iocache)]
             shim = None
             damaged_before = None
-            if k < 0.70:
+            if scripted is not None:
+                cmd = scripted[1]
+                args += list(scripted[2])
+                shim = {} if cmd == "sync" else None
+            elif k < 0.70:
                 cmd = "sync"
                 v = list(rng.choice(SYNC_VARIANTS))
                 if v == ["PARTIAL"]:
